@@ -129,10 +129,10 @@ PROPS = {
         "assumptions": ["SpWF: registered metadata has an SPSSODescriptor (NewServiceProvider refuses metadata without one)"],
     },
     "C12": {
-        "modules": ["SamlModel.Props.C12", "SamlModel.Props.AttrQueryGen", "SamlModel.Props.AttrQueryProps", "SamlModel.Props.Stateless", "SamlModel.Props.LookupGen", "SamlModel.Props.PostSignGen"],
+        "modules": ["SamlModel.Props.C12", "SamlModel.Props.AttrQueryGen", "SamlModel.Props.AttrQueryProps", "SamlModel.Props.Stateless", "SamlModel.Props.LookupGen", "SamlModel.Props.PostSignGen", "SamlModel.Props.DecodeGen"],
         "translated": ["verifyRequestDestinationOfAttrQuery", "certificateCheckNecessary", "checkCertificate", "signaturePostProvided",
                        "ServiceProvider_GetEntityID", "Attributes_GetSAML", "Attributes_GetNameID", "getResponseCert",
-                       "makeAttributeQueryResponse", "IdentityProvider_attributeQueryHandleFunc", "IdentityProvider_GetServiceProvider", "createPostSignature"],
+                       "makeAttributeQueryResponse", "IdentityProvider_attributeQueryHandleFunc", "IdentityProvider_GetServiceProvider", "createPostSignature", "DecodeAttributeQuery"],
         "trusted_base": COMMON_TRUST + AQ_TRUST + [
             "SOAP/XML decoding and XML-DSig validation of the query (ValidateAttributeQuerySignature: etree + goxmldsig) are oracles sampled with real keys",
         ],
@@ -159,8 +159,8 @@ PROPS = {
         "assumptions": ["a browser tokenises the page as the WHATWG tokenizer does; tree construction (foster parenting, implied end tags) is not modelled - the page theorem fixes the complete token stream, from which exactly one form with two hidden inputs follows for any conformant tree builder"],
     },
     "C18": {
-        "modules": ["SamlModel.Props.C18", "SamlModel.Props.Stateless"],
-        "translated": ["InflateAndDecode"],
+        "modules": ["SamlModel.Props.C18", "SamlModel.Props.Stateless", "SamlModel.Props.DecodeGen"],
+        "translated": ["InflateAndDecode", "DecodeAuthNRequest", "DecodeLogoutRequest", "DecodeAttributeQuery"],
         "trusted_base": COMMON_TRUST + [
             "encoding/xml is not translated: its struct marshaller (marshalValue / marshalStruct / marshalAttr: naming precedence, xmlns emission, attr / omitempty / chardata / innerxml / any, nil pointers, slices) and its printer and escaper are hand-modelled in Lib.XmlMarshal / Lib.Xml / Lib.XmlEscape as an interpreter of the wire schema; the schema itself (Gen.Schema: every struct type of pkg/provider/xml/**, field order, tags as encoding/xml's typeinfo reads them) is regenerated from the source on every run; model and real samlxml.Marshal are compared byte for byte on randomly filled values of every root type (`lib marshal`)",
             "the XML tokenizer of the theorems (Lib.Xml.step: declaration / PI, tags, attributes with both quote styles, empty-element tags, character data, predefined entities and numeric references, line-end and attribute-value normalisation) is written from the XML 1.0 specification and compared with encoding/xml's decoder on every document (`lib xmltok`); comments, DOCTYPE and CDATA sections are skipped to the next '>' (never emitted: no wire type has a comment or cdata field, no value can open markup: C18_no_markup)",
